@@ -45,6 +45,8 @@ DESIGNATED = {
 FRESH = {("reference_count", n) for n in
          ("MHD_create_response_from_callback", "MHD_create_response_from_buffer_with_free_callback_cls",
           "MHD_create_response_from_iovec", "MHD_create_response_empty", "MHD_create_response_for_upgrade")} \
+        | {("resp_block", n) for n in ("MHD_create_response_from_buffer_with_free_callback_cls",
+                                       "MHD_create_response_from_iovec", "MHD_create_response_from_callback")} \
         | {("urh_clean_ready", "MHD_response_execute_upgrade_"), ("urh_clean_ready", "thread_main_handle_connection")}
 KNOWN_UNPROTECTED = lambda f, w: (f == "c_suspended" and not w) or f == "urh_was_closed"
 
@@ -94,6 +96,8 @@ class Table:
             return "daemon-thread"
         if (f, n) in FRESH:
             return "fresh-object"
+        if f == "resp_block_nocrc" or (f == "resp_block" and "response_mutex" in self.eff_may(n, e)):
+            return "response-mutex(guarded)"
         return None
 
     def static_report(self):
@@ -138,7 +142,18 @@ class Table:
                             fi.file, e["line"], n, "write" if e["write"] else "read", e["field"], fi.role,
                             self.eff_g(n, e), sorted(self.eff_must(n, e)))
                         (known_unprot if KNOWN_UNPROTECTED(e["field"], e["write"]) else unprot).append(s)
-        return {"lock_order_edges": sorted("%s -> %s  (%s)" % (a, b, edge_sites[(a, b)]) for a in edges for b in edges[a]),
+        flag_unpaired = []
+        for n in self.names:
+            fi = self.world.defs[n]
+            for e in self.ev[n]:
+                if e["kind"] == "acc" and e["field"] == "have_new" and e["write"] and \
+                        "new_connections_mutex" not in self.eff_must(n, e) and fi.role != "startup":
+                    flag_unpaired.append("%s:%d %s writes daemon->have_new without new_connections_mutex" % (fi.file, e["line"], n))
+        resume_bad = ["%s:%d result of resume_suspended_connections() does not reach the wait timeout" % (self.world.defs[a].file, b)
+                      for a, b, tpc, feeds in self.world.resume_sites if not tpc and not feeds]
+        return {"have_new_unpaired": flag_unpaired, "resume_result_discarded": resume_bad,
+                "resume_wait_sites": ["%s:%d tpcOnly=%s feeds=%s" % x for x in self.world.resume_sites],
+                "lock_order_edges": sorted("%s -> %s  (%s)" % (a, b, edge_sites[(a, b)]) for a in edges for b in edges[a]),
                 "lock_order_cycles": [" -> ".join(c) for c in cyc],
                 "blocking_with_lock": blocking, "unprotected_accesses": unprot,
                 "known_unprotected_accesses": known_unprot, "access_classes": dict(cls),
@@ -220,7 +235,7 @@ class Spec:
     required_theorems = ["Mhd.C18.context_certificate", "Mhd.C18.lock_order_ranked", "Mhd.C18.no_deadlock_by_lock_order",
                          "Mhd.C18.some_blocked_thread_can_proceed", "Mhd.C18.no_lock_held_while_blocking",
                          "Mhd.C18.lockset_partial", "Mhd.C18.lockset_witness", "Mhd.C18.writes_under_mutex",
-                         "Mhd.C18.callbacks_unlocked", "Mhd.C18.stop_sequence", "Mhd.C18.stop_invariant",
+                         "Mhd.C18.callbacks_unlocked", "Mhd.C18.have_new_paired", "Mhd.C18.resume_forces_zero_timeout", "Mhd.C18.stop_sequence", "Mhd.C18.stop_invariant",
                          "Mhd.C18.stop_progress", "Mhd.C18.stop_bounded", "Mhd.C18.stop_final",
                          "Mhd.C18.notified_at_most_once", "Mhd.C18.tpc_stop_terminates",
                          "Mhd.C18.tpc_stop_unfixed_witness"]
@@ -312,6 +327,20 @@ class Spec:
             st[k] += int(res.get(k, 0) or 0)
         if "stop_ms" in res:
             st["stop_ms_max"] = max(st["stop_ms_max"], int(res["stop_ms"]))
+        if res.get("pinadd") in ("0", "1"):
+            st["pinadd_runs"] += 1
+        if res.get("pinadd") == "1":
+            failures.append(vlib.Failure("oracle", "add: connection added from another thread during the take-over of an earlier one is not served pool=%s" % pool,
+                                         "deterministic scenario (second MHD_add_connection issued from inside the NOTIFY_STARTED callback of the first, "
+                                         "i.e. while the daemon thread is in new_connections_list_process_): no reply on one of the two connections within "
+                                         "2 s.  mode=%s pool=%s %s" % (mode, pool, json.dumps(res)), inp, "locks"))
+        if res.get("quietresume") in ("0", "1"):
+            st["quietresume_runs"] += 1
+            st["quietresume_ms_max"] = max(st["quietresume_ms_max"], int(res.get("quietresume_ms", 0) or 0))
+        if res.get("quietresume") == "1":
+            failures.append(vlib.Failure("oracle", "resume: connection resumed from another thread on an otherwise idle daemon gets no reply mode=%s pool=%s" % (mode, pool),
+                                         "deterministic scenario (one connection, handler suspends, another thread resumes 150 ms later, no other "
+                                         "traffic): no reply within 2 s.  %s" % json.dumps(res), inp, "locks"))
         if rc == 3 or res.get("watchdog"):
             st["watchdog"] += 1
             failures.append(vlib.Failure("oracle", "stop: MHD_stop_daemon did not return (watchdog) pool=%s" % pool,
@@ -353,6 +382,12 @@ class Spec:
                                          {"table": "lean/Mhd/Gen/Locks.lean", "cycle": c}, "locks"))
         for b in static["blocking_with_lock"][:5]:
             failures.append(vlib.Failure("diff", "locks: blocking call with a mutex possibly held", b, {"table": "lean/Mhd/Gen/Locks.lean", "site": b}, "locks"))
+        for x in static["have_new_unpaired"]:
+            failures.append(vlib.Failure("diff", "locks: have_new written outside the critical section of the hand-over list", x,
+                                         {"table": "lean/Mhd/Gen/Locks.lean", "site": x}, "locks"))
+        for x in static["resume_result_discarded"]:
+            failures.append(vlib.Failure("diff", "locks: event loop ignores the result of resume_suspended_connections", x,
+                                         {"table": "lean/Mhd/Gen/Locks.lean", "site": x}, "locks"))
         for u in static["unprotected_accesses"][:8]:
             failures.append(vlib.Failure("diff", "locks: shared field accessed without its mutex outside the benign set: " +
                                          re.sub(r":\d+", ":N", u.split(" held=")[0]), u, {"table": "lean/Mhd/Gen/Locks.lean", "site": u}, "locks"))
